@@ -447,8 +447,10 @@ func xRunOnce(c *sim.Ctx, t *testing.T, sess *Session, steps []*xStep, runNo int
 				anywhere = true
 				r, started := readAt[i]
 				if ln.step <= i && (!started || ln.at < r+to) {
-					if cancelledAt >= 0 && ln.at >= cancelledAt {
-						// written only after the caller had given up: cannot have counted
+					if cancelledAt >= 0 && ln.at > cancelledAt {
+						// written at a later (simulated) time than the caller gave up - and time only
+						// moves when the tool has nothing left to do: cannot have counted.  (At the
+						// very same instant the tool may see either first.)
 						byCancel = true
 						continue
 					}
